@@ -462,6 +462,28 @@ def rule_totallookup(ctx):
             yield ob("C14.TOTALLOOKUP", f, "%s:lookups" % f.qual, True, "no table lookup in this validator")
 
 
+def rule_squeeze(ctx):
+    """np.squeeze() without an axis turns a one-element row into a 0-d array; slicing or len() of the result then raises.
+    A row can legitimately have one element (a window of a single frame), so the result must not be used as a sequence."""
+    n = 0
+    for f in ctx.program.all_funcs():
+        if f.module.name in ("sonify", "display"):
+            continue
+        s = ctx.S.get(f.qual)
+        sq = [c for c in s.calls() if c.term.op == "call" and call_name(c.term) == "np.squeeze" and len(c.term.a[1]) == 1 and not any(k == "axis" for k, _ in c.term.a[2])]
+        for i, c in enumerate(sq):
+            used_as_seq = None
+            for x in s.sites:
+                if x.kind == "subscript" and x.base is c.term and (x.index.op == "slice" or (x.index.op == "tuple" and any(z.op == "slice" for z in x.index.a))):
+                    used_as_seq = x
+                if x.kind == "call" and x.callee == "builtins.len" and x.args and x.args[0] is c.term:
+                    used_as_seq = x
+            n += 1
+            yield ob("C14.SQUEEZE", f, "%s:squeeze@%d" % (f.qual, i), used_as_seq is None, "result of .squeeze() is %s" % ("not sliced or measured" if used_as_seq is None else "sliced at line %d: for a one-element input it is 0-dimensional and the slice raises IndexError" % used_as_seq.lineno), node=c.node)
+    if n == 0:
+        yield ob("C14.SQUEEZE", "mir_eval/", "package:no-squeeze", True, "no axis-less squeeze() in the metric modules")
+
+
 def rule_countguard(ctx):
     for o in c01.rule_countguard(ctx, rule="C14.COUNTGUARD"):
         yield o
@@ -480,6 +502,7 @@ RULES = [
     ("C14.FACETS", len(FACETS), rule_facets),
     ("C14.DEFASSIGN", 190, rule_defassign),
     ("C14.TOTALLOOKUP", 15, rule_totallookup),
+    ("C14.SQUEEZE", 1, rule_squeeze),
     ("C14.COUNTGUARD", 23, rule_countguard),
     ("C14.CROPSTRICT", 4, rule_cropstrict),
 ]
